@@ -66,6 +66,14 @@ SHAPES = [
     ("no use of the defined macros", [SHIFT, ZERO], [S("X"), {S("M"): [S("O")]}], [S("X"), {S("M"): [S("O")]}]),
     ("parameterised macro called with nested argument spelling", [ZERO], [{"@zero": {"reg": S("R1")}}, {"@zero": {"reg": S("R2")}}],
      [zero(S("R1")), zero(S("R2"))]),
+    ("block macro used with a times body", [SHIFT], [{"@shift": {"times": 2}}, S("X")],
+     [{"$or": [S("SHL"), S("SHR")], "times": 2}, S("X")]),
+    ("block macro used with a sibling times", [SHIFT], [{"@shift": None, "times": {"min": 0, "max": 3}}, S("X")],
+     [{"$or": [S("SHL"), S("SHR")], "times": {"min": 0, "max": 3}}, S("X")]),
+    ("parameterised macro used with a sibling times", [ZERO], [{"@zero": {"reg": S("R1")}, "times": 2}, S("X")],
+     [dict(zero(S("R1")), times=2), S("X")]),
+    ("block macro whose body is a bare name, used with a times body", [{"name": "@one", "pattern": [S("BODY")]}],
+     [{"@one": {"times": 3}}], [{S("BODY"): {"times": 3}}]),
     ("formal parameter names that occur inside other names of the body",
      [{"name": "@emb", "args": ["reg", "r", "0"], "pattern": [{"$and": [
          {"xor": ["reg", "&genreg.64"]}, {"mov": ["r", "%reg", "reg.32"]},
@@ -130,8 +138,10 @@ def run(ctx) -> None:
                               "the definition object itself is substituted into", "argument substitution works on a fresh deep copy")
                 if e.kind == "enter" and e.func == "ArgsMappingGenerator.get_args_mapping_dict":
                     tree = e.frame.locals.get("tree")
-                    ok = isinstance(tree, DictV) and len(tree.pairs) == 1 and isinstance(tree.pairs[0][0], Str) and \
-                        tree.pairs[0][0].render().startswith("@")
+                    keys = [k.render() if isinstance(k, Str) else repr(k) for k, _ in tree.pairs] if isinstance(tree, DictV) else []
+                    # the call node: the macro's name as key, at most a sibling `times`
+                    ok = isinstance(tree, DictV) and len([k for k in keys if k.startswith("@")]) == 1 and \
+                        all(k.startswith("@") or k == "times" for k in keys)
                     ctx.check(ok, "C13.M3.arguments-from-call-node", "MacroExpander._resolve_local_macro",
                               f"arguments looked up in {tree!r}"[:120], "the argument values are looked up inside the call node only")
     # thorough: every way of factoring one part of a base rule into a macro
